@@ -7,7 +7,7 @@ from typing import List, Optional, Set
 from ..loader import AnalysisError, FuncInfo
 from ..report import rule
 from ..resolve import Resolver
-from .common import Flow, all_calls, attr_chain, callee_fq, calls_to, short, unparse
+from .common import Flow, all_calls, attr_chain, callee_fq, calls_to, message_text, short, unparse
 
 POOL_CTORS = {"multiprocessing.Pool", "multiprocessing.pool.Pool", "multiprocessing.pool.ThreadPool",
               "multiprocessing.dummy.Pool", "concurrent.futures.ProcessPoolExecutor",
@@ -262,7 +262,7 @@ def r3(ctx):
             ctx.check(r.cause is not None and isinstance(r.cause, ast.Name) and r.cause.id == h.name, fi,
                       "translator raises TypeError `from` the caught error", line=r.lineno, role="translator:from",
                       expected=f"raise TypeError(...) from {h.name}", found=unparse(r))
-            msg = " ".join(str(c.value) for c in ast.walk(r.exc) if isinstance(c, ast.Constant) and isinstance(c.value, str))
+            msg = message_text(ana, fi, r.exc)
             ctx.check(other.name in msg, fi, f"translator message names the other entry point `{other.name}`",
                       line=r.lineno, role="translator:message", expected=other.name, found=msg[:90])
         # the translator must be the first thing that looks at the data: an earlier len()/attribute/subscript on it would
@@ -351,7 +351,7 @@ def r4(ctx):
     ctx.check(ok, fi, "leaving the donor search loop without a donor always reaches the raise", line=lp.lineno,
               role="raise:on-exhaustion", expected="loop exhaustion -> raise RuntimeError",
               found="a path from loop exhaustion to a normal return")
-    msg = " ".join(str(c.value) for n in rt for c in ast.walk(n.ast.exc) if isinstance(c, ast.Constant) and isinstance(c.value, str))
+    msg = " ".join(message_text(ana, fi, n.ast.exc) for n in rt)
     ctx.check("donor" in msg.lower(), fi, "the message names the donor shortage", line=rt[0].lineno, role="raise:message",
               expected="'donor' in the message", found=msg[:80])
     # the RuntimeError is not caught anywhere between here and the public entry points (all handlers re-raise: R2)
